@@ -18,3 +18,7 @@ import Spydr.Edif.Props.C05
 #print axioms Spydr.Edif.C03.name_index_plain
 #print axioms Spydr.Edif.C03.numeral_roundtrip
 #print axioms Spydr.Edif.C03.member_index_roundtrip
+#print axioms Spydr.Edif.C05.edif_reader_spec_partial
+#print axioms Spydr.Edif.C03.edif_roundtrip_partial
+#print axioms Spydr.Edif.C03.readCell_ports
+#print axioms Spydr.Edif.C03.readCell_cables
